@@ -682,3 +682,15 @@ func isGhostTrace(name string) bool {
 }
 
 func (u *Unit) RepoCallees() []string { return sortedKeys(u.repoCallees) }
+
+// ScanObligation wraps the result of a syntactic whole-package scan as an obligation.
+func ScanObligation(name, src string, ok bool, detail string) *Obligation {
+	u := newUnit(nil, name)
+	o := &Obligation{Name: name, Func: name, Kind: "scan", Src: src, Guard: "true", Goal: "true", unit: u}
+	if !ok {
+		o.Kind = "bind"
+		o.Src = src + ": " + detail
+		o.Goal = "false"
+	}
+	return o
+}
